@@ -276,6 +276,59 @@ def r9_4(ctx, fx):
     ctx.floor(rid, n, 30, "disjunct-changing events")
 
 
+def r9_5(ctx):
+    from rules.c14 import units_alloc
+    rid = "R9.5"
+    ctx.rule(rid, "search flags are per iteration: a bool local that an inner loop sets to true (`found`) and that the enclosing loop reads — in the inner loop's condition or after the inner loop — is declared in the body of the enclosing loop or reset to false there, unless the enclosing loop's own condition stops on it; a flag hoisted out of the enclosing loop keeps the verdict of an earlier iteration (Pointset_Powerset::contains(y) would accept every disjunct of y after the first contained one). Judged on the whole library; the powerset containment tests are two of the instances")
+    fx = ctx.extract(units_alloc())
+    n = 0
+    seen = set()
+
+    def assigns(f, a, name, vals):
+        if a["k"] != "assign":
+            return False
+        l, r = f.deref(a["c"][0]), f.deref(a["c"][1])
+        return l is not None and l["k"] == "ref" and l.get("n") == name and r is not None and f.text(r).strip() in vals
+    for f in fx.functions:
+        if (f.relfile, f.line) in seen:
+            continue
+        seen.add((f.relfile, f.line))
+        for l2 in f.walk():
+            if l2["k"] not in ("for", "while", "do"):
+                continue
+            outer = [a for a in f.ancestors(l2) if a["k"] in ("for", "while", "do")]
+            if not outer:
+                continue
+            l1 = outer[0]
+            l1body, l2body = f.deref(l1["c"][-1]), f.deref(l2["c"][-1])
+            if l1body is None or l2body is None:
+                continue
+            names = set()
+            for a in f.walk(l2body):
+                if a["k"] == "assign":
+                    l = f.deref(a["c"][0])
+                    if l is not None and l["k"] == "ref" and l.get("dk") == "local" and "bool" in l.get("t", "") and assigns(f, a, l["n"], ("true", "1")):
+                        names.add(l["n"])
+            for fl in sorted(names):
+                lhs_ids = set(f.deref(a["c"][0])["i"] for a in f.walk(l1body) if a["k"] == "assign" and f.deref(a["c"][0]) is not None)
+                reads = [x for x in f.walk(l1body) if x["k"] == "ref" and x.get("n") == fl and not f.within(x, l2body) and x["i"] not in lhs_ids]
+                if not reads:
+                    continue
+                n += 1
+                inst = "%s::%s flag `%s` set in the loop at line %s" % (f.clsn or "", f.name, fl, l2.get("l"))
+                decl = [v for v in f.walk(l1body) if v["k"] == "var" and v.get("n") == fl]
+                resets = [a for a in f.walk(l1body) if assigns(f, a, fl, ("false", "0"))]
+                conds = [f.deref(c) for c in l1.get("c", ())[:-1] if f.deref(c) is not None]
+                stops = any(x["k"] == "ref" and x.get("n") == fl for c in conds for x in f.walk(c))
+                if decl or resets:
+                    ctx.ok(rid, inst, f.where(l2))
+                elif stops:
+                    ctx.ok(rid, inst + " [the enclosing loop stops on it]", f.where(l2))
+                else:
+                    ctx.violation(rid, inst, f.where(l2), "`%s` is set by the inner loop and read by the enclosing loop (line %s), but it is neither declared nor reset inside the enclosing loop: from the second iteration on it still holds the earlier verdict" % (fl, reads[0].get("l")))
+    ctx.floor(rid, n, 15, "search flags shared by nested loops")
+
+
 DIM_CHANGERS = ("add_space_dimensions_and_embed", "add_space_dimensions_and_project", "remove_space_dimensions",
                 "remove_higher_space_dimensions", "map_space_dimensions", "expand_space_dimension",
                 "fold_space_dimensions", "concatenate_assign")
@@ -323,3 +376,4 @@ def run(ctx):
     r9_2(ctx, fx)
     r9_3(ctx, fx)
     r9_4(ctx, fx)
+    r9_5(ctx)
